@@ -12,9 +12,9 @@ COMMON_NOTE = ("Trusted: Coq kernel (coqc; coqchk in the thorough tier), no axio
 
 P = {
  "C01": ("Coq model of the whole DSL pipeline (pre-pass, lexer, recursive-descent parser, listener, printer; Model/Lexer.v, Parser.v, Listener.v, Printer.v, Transform.v) "
-         "with theorems in Properties/C01.v (every accepted document renders — from the text, no hypothesis left; every parsed model is expressible and always renders, by either API path; at parse-tree level the text printed for a parsed relation is the canonical rendering of a grammatical definition with the SAME denotation — the parser's output is already in the printer's normal form; and AT CHARACTER LEVEL, for every relation definition whose names are plain identifiers that no literal rule of the lexer claims: printer text -> lexer model -> parser model -> listener gives the same rewrite with the same restrictions and no lexer error, Proofs/LexInversion.v, LexRender.v, ParserNatural.v, RoundTripChars.v over the regenerated keyword tables; and FOR WHOLE DOCUMENTS without conditions and module information whose names are plain identifiers: the text the printer model writes is turned by the pre-pass, the lexer model, the parser model and the listener model back into the model in canonical form, Proofs/Doc*.v, LexEof.v, PrepassTidy.v); the model's three-round composition (Transform.roundtrip) is run against the implementation's on every document, through the JSON string API and in memory, "
+         "with theorems in Properties/C01.v (every accepted document renders — from the text, no hypothesis left; every parsed model is expressible and always renders, by either API path; at parse-tree level the text printed for a parsed relation is the canonical rendering of a grammatical definition with the SAME denotation — the parser's output is already in the printer's normal form; and AT CHARACTER LEVEL, for every relation definition whose names are plain identifiers that no literal rule of the lexer claims: printer text -> lexer model -> parser model -> listener gives the same rewrite with the same restrictions and no lexer error, Proofs/LexInversion.v, LexRender.v, ParserNatural.v, RoundTripChars.v over the regenerated keyword tables; and FOR WHOLE DOCUMENTS without conditions and module information whose names are plain identifiers: the text the printer model writes is turned by the pre-pass, the lexer model, the parser model and the listener model back into the model in canonical form, and rendering that model gives the same bytes again (C01_three_rounds), Proofs/Doc*.v, LexEof.v, PrepassTidy.v); the model's three-round composition (Transform.roundtrip) is run against the implementation's on every document, through the JSON string API and in memory, "
          "and the property itself (model equality modulo expression whitespace, byte stability) is checked on the implementation for every accepted document.",
-         "Not mechanised: the character-level round trip of conditions, comments, module files and of names that are keywords, and the byte stability of the second round (all observed on every run). ANTLR lexer/parser semantics and protojson are modelled (assumptions listed in Model/Lexer.v, Parser.v, Transform.v), not verified."),
+         "Not mechanised: the character-level round trip of conditions, comments, module files and of names that are keywords (all observed on every run). ANTLR lexer/parser semantics and protojson are modelled (assumptions listed in Model/Lexer.v, Parser.v, Transform.v), not verified."),
  "C02": ("Theorems in Properties/C02.v about Model/Printer.v (the transcription of jsontodsl.go): the printer succeeds exactly on expressible rewrites, and (lossless) the text it writes is the canonical rendering of a grammatical parse tree whose denotation — also through the listener's rewrite stack — is the input rewrite up to [normalize] (direct assignment hoisted, one-operand operators collapsed) with exactly the relation's type restrictions; characters included: the printed line lexes without error to the canonical tokens (longest match, first rule, over the regenerated keyword tables; names plain identifiers and not keywords), the parser reads token kinds only, hence print_top -> lex -> p_def -> denotation = normalize u with the relation's restrictions; at document level (no conditions, no module information, plain names) print_model -> pre-pass -> lex -> parse -> listener = the model in canonical form (C02_document_round_trip); the Coq specification itself (carriable/expressible/normalize) is evaluated by the extracted model on every relation and compared with the implementation's re-parsed output; correspondence of the printer model with both printer paths byte for byte, "
          "an independent specification (count/first-position, normalisation) as oracle on random models and on every rewrite tree (operators with 1-3 operands) up to 5/6 nodes, and parse-back of every output.",
          "Not mechanised: names that are keywords, conditions, modular metadata comments (observed). Domain of the statement: carriable models (what a DSL document can express at all); degenerate shapes are correspondence-only."),
